@@ -454,6 +454,7 @@ class ChildWorld:
         elif name == "drive":
             # ["drive", [loop ops / sample / observe ...], cap]: repeat cyclically until a loop op returns False
             plan, cap = op[1], int(op[2])
+            use_ic = len(op) > 3 and op[3] == "ic"     # the caller's loop is `while not engine.is_complete(): ...`
             obs_t, obs_n, obs_x, rets, ro = [], [], [], [], []
             rs_n = rs_clock = rs_ms = 0
             nloop = 0
@@ -464,6 +465,9 @@ class ChildWorld:
                 o = plan[k % len(plan)]
                 if o[0] in LOOP_OPS:
                     if done or nloop >= cap:
+                        break
+                    if use_ic and eng.is_complete():
+                        done = True
                         break
                     r, _ = self.do_loop_op(eng, o)
                     nloop += 1
